@@ -433,7 +433,7 @@ func (p *{{$TypeName}}) {{.Writer}}(oprot thrift.TProtocol) (err error) {
 		if err = oprot.WriteFieldBegin("{{.Name}}", thrift.{{$TypeID}}, {{.ID}}); err != nil {
 			goto WriteFieldBeginError
 		}
-		{{ ZeroWriter .Type "oprot" "WriteFieldBeginError" }}
+		{{ ZeroWriterOf $ctx "oprot" "WriteFieldBeginError" }}
 		if err = oprot.WriteFieldEnd(); err != nil {
 			goto WriteFieldEndError
 		}
